@@ -210,7 +210,7 @@ theorem C20_route (m : Mode) (seen has : Bool) :
 theorem C20_forward (ops : List FOp) :
     FInv (ops.foldl fwdStep { queues := [], backlog := [], delivered := [], failed := [], canceled := [] }) := by
   have h0 : FInv { queues := [], backlog := [], delivered := [], failed := [], canceled := [] } :=
-    ⟨fun m hm => by cases hm, fun h => absurd rfl h⟩
+    ⟨(fun m hm => by cases hm), (fun h => absurd rfl h)⟩
   generalize ({ queues := [], backlog := [], delivered := [], failed := [], canceled := [] } : Fwd) = s at h0
   induction ops generalizing s with
   | nil => exact h0
